@@ -28,10 +28,13 @@ from .tlc import run_tlc, validate_trace
 BOXES = [(0, 0, 100, 100), (3, 3, 3, 3), (5, 0, 9, 40), (9, 40, 5, 0), (5, 40, 9, 0), (30, 0, 10, 12), (-50, -50, -40, -40), (0, 0, 4, 0), (12, 12, 40, 13), (2, 2, 2, 9)]
 
 
-def frame(rng, n):
+def frame(rng, n, sites=0):
     import spatialpandas as sp
     xs = [rng.randrange(0, 40) for _ in range(n)]
-    pts = [geom.El([[[[x, (7 * x + i) % 23]]]]) for i, x in enumerate(xs)]
+    if sites:                       # only a few distinct locations (stacks of identical points): requested output partitions come out empty
+        base = [3, 17, 31, 38][:sites]
+        xs = [base[i % sites] for i in range(n)]
+    pts = [geom.El([[[[x, (7 * x + i) % 23 if not sites else (7 * x) % 23]]]]) for i, x in enumerate(xs)]
     lines = [geom.El([[[[60 - x, i % 5], [61 - x + i % 3, 3 + i % 4]]]]) for i, x in enumerate(xs)]
     if n > 4:
         pts[n // 2] = geom.NULL
@@ -73,7 +76,8 @@ def run(tier: str, seed: int) -> int:
                     for rep in range(1 if quick else 3):
                         dsno += 1
                         n = max(nparts * 2 + rng.randrange(0, 5), 6)
-                        df, cols = frame(rng, n)
+                        df, cols = frame(rng, n if not (writer == "pack" and dsno % 2 == 0) else max(n, 24), sites=3 if (writer == "pack" and dsno % 2 == 0) else 0)
+                        n = len(df)
                         active = ["west_east", "east_west"][dsno % 2]
                         path = os.path.join(tmp, f"ds{dsno}", "a.parq")
                         os.makedirs(os.path.dirname(path))
